@@ -16,7 +16,8 @@ impl Perform for Rec {
         self.0.push(json!({"k":"exec","b":b}));
     }
     fn hook(&mut self, p: &Params, i: &[u8], ign: bool, b: u8) {
-        self.0.push(json!({"k":"hook","p":pj(p),"i":i,"ign":ign,"b":b}));
+        self.0.push(json!({"k":"hook","p":pj(p),"i":i,"ign":ign,"b":b,"n":p.len(),"d":format!("{:?}", p)}));
+        debug_assert_eq!(p.is_empty(), p.len() == 0);
     }
     fn put(&mut self, b: u8) {
         self.0.push(json!({"k":"put","b":b}));
@@ -28,7 +29,8 @@ impl Perform for Rec {
         self.0.push(json!({"k":"osc","f":p,"bell":bell}));
     }
     fn csi_dispatch(&mut self, p: &Params, i: &[u8], ign: bool, b: u8) {
-        self.0.push(json!({"k":"csi","p":pj(p),"i":i,"ign":ign,"b":b}));
+        self.0.push(json!({"k":"csi","p":pj(p),"i":i,"ign":ign,"b":b,"n":p.len(),"d":format!("{:?}", p)}));
+        debug_assert_eq!(p.is_empty(), p.len() == 0);
     }
     fn esc_dispatch(&mut self, i: &[u8], ign: bool, b: u8) {
         self.0.push(json!({"k":"esc","i":i,"ign":ign,"b":b}));
